@@ -189,6 +189,21 @@ def run(rep: common.Report, tier: str, seed: int, replay=None) -> int:
                 dev.layer.london_lambda = dev.layer.london_lambda * 1.07
             else:
                 dev.translate(dx=0.05, dy=-0.03, inplace=True)
+        # "compares equal" must be able to say no: solutions that differ (other drive, other recorded step, other kind of object)
+        # compare unequal - otherwise the equality checks above would prove nothing
+        if len(kept) >= 2:
+            sA, sB = kept[0][0], kept[1][0]
+            try:
+                sA.solve_step = sA.data_range[1]
+                sA_first = tdgl.Solution.from_hdf5(sA.path, solve_step=0)
+                neg = [("another run", sA.equals(sB) or sA == sB), ("another recorded step of the same run", sA.equals(sA_first)),
+                       ("an object of another type", sA.equals("solution") or sA == 3)]
+                for what_, eq_ in neg:
+                    if eq_:
+                        rep.violation(f"a solution compares equal to {what_}", {"runs": [kept[0][2], kept[1][2]]})
+            except Exception as e:  # noqa: BLE001
+                rep.violation(f"comparing different solutions raised {type(e).__name__}: {e}"[:160], {})
+            rep.count(1)
         for sol, case, oi in kept:
             try:
                 again = tdgl.Solution.from_hdf5(sol.path)
